@@ -210,6 +210,13 @@ def render_validator_file(idx, f):
         if t["invoke"]:
             targs.append("cff.Invoke(true)")
         opts.append("cff.Task(%s)" % ", ".join(targs))
+    # "whatever the order of its options": Params and Results are placed anywhere among the Tasks in a
+    # seeded way (the relative order of the Tasks is the model's: with a duplicate provider the last wins)
+    rr = random.Random(idx * 7919 + len(opts))
+    heads = [o for o in opts if not o.startswith("cff.Task(")]
+    opts = [o for o in opts if o.startswith("cff.Task(")]
+    for o in heads:
+        opts.insert(rr.randint(0, len(opts)), o)
     lines.append("\treturn cff.Flow(ctx,")
     for o in opts:
         lines.append("\t\t%s," % o)
